@@ -49,6 +49,10 @@ def catalogue():
 MSG = 'line one\nline <two>\n\nend'
 
 
+# submitted texts that would disturb a careless message template: quotes, markup, format fields, percent directives, backslashes
+TEXTS = ['the <input>', "in'2", 'x_{1}', '{0}', '{}', '{', '}', '{input}', '{0!r:>{1}}', '%s %d', 'a\\b', '']
+
+
 def h_wrapper(E):
     from mitxgraders.baseclasses import ItemGrader
     from mitxgraders import ListGrader, StringGrader
@@ -60,6 +64,7 @@ def h_wrapper(E):
     debug = E.fork_bool('debug')
     as_list = E.fork_bool('list_input')
     with_msg = E.fork_bool('multi_line_message')
+    text = E.choice('submitted_text', TEXTS)
 
     def boom(*a, **kw):
         raise exc_cls(MSG if with_msg else 'plain')
@@ -69,10 +74,10 @@ def h_wrapper(E):
             boom()
     if as_list:
         g = ListGrader(answers=['a', 'b'], subgraders=Boom(), debug=debug)
-        inp = ['in"1', "in'2"]
+        inp = ['in"1', text]
     else:
         g = Boom(answers='a', debug=debug)
-        inp = 'the <input>'
+        inp = text
     try:
         g(None, inp)
         E.check('exception-propagates', False)
@@ -88,7 +93,7 @@ def h_wrapper(E):
         E.check('message-kept-with-br', str(got) == (MSG if with_msg else 'plain').replace('\n', '<br/>'))
     else:
         E.check('internal-failure-becomes-generic-student-facing-error', type(got) is StudentFacingError)
-        want = ("Invalid Input: Could not check inputs 'in\"1', 'in'2'" if as_list else "Invalid Input: Could not check input 'the <input>'")
+        want = ("Invalid Input: Could not check inputs 'in\"1', '" + text + "'" if as_list else "Invalid Input: Could not check input '" + text + "'")
         E.check('generic-message-names-submission', str(got) == want)
     return type(got).__name__
 
